@@ -4,6 +4,7 @@ import VtProofs.MvtTables
 import VtProofs.MvtOps
 import VtProofs.MvtCodec
 import VtProofs.MvtShape
+import VtProofs.MvtFromIter
 /-!
 # C11 – updating vector-tile properties leaves everything else untouched; PBF round trips
 
@@ -17,7 +18,7 @@ entries.  Decoding and re-encoding any valid vector tile without changes preserv
 All theorems are about the model `VtModel.Prim` / `VtModel.Mvt` (tied to the code by `bin/check C11`).
 -/
 namespace VtProps.C11
-open VtModel VtModel.Prim VtModel.Mvt VtProofs.Prim VtProofs.MvtTables VtProofs.MvtOps VtProofs.MvtCodec VtProofs.MvtShape
+open VtModel VtModel.Prim VtModel.Mvt VtProofs.Prim VtProofs.MvtTables VtProofs.MvtOps VtProofs.MvtCodec VtProofs.MvtShape VtProofs.MvtFromIter
 
 /-! ## 1. primitives -/
 
@@ -289,7 +290,7 @@ example :
                        name := [114], keys := [[105, 100]], vals := [.str [97, 49]], version := 2 }
     let a : UpdArgs := { layer := [114], idTiles := [105, 100], idData := [105, 100], replace := false, remove := true, includeId := false }
     let m : DataMap := [([97, 49], [([110], .uint 5)])]
-    (updateTile noTables a (fmtValue []) m ⟨[l]⟩).map (fun t => t.layers.map dumpLayer)
+    (updateTile fromIter a (fmtValue []) m ⟨[l]⟩).map (fun t => t.layers.map dumpLayer)
       = .ok ["72:4096:2:7,1,090202,6964=s6131&6e=u5"] := by
   decide
 
@@ -346,5 +347,63 @@ example : TileOk ⟨[]⟩ := by simp [TileOk, encodeTile, U64]
 example : ValueOk (.uint 5) ∧ ValueOk (.int (-(2:Int)^63)) ∧ ValueOk (.str [97]) := by
   refine ⟨by simp [ValueOk, U64], by simp [ValueOk], ?_⟩
   simp [ValueOk, U64]; decide
+
+/-! ## 6. the rebuilt tables (`PropertyManager::from_iter`) -/
+
+/-- After `filter_map_properties` the named layer's key and value tables are exactly what
+    `from_iter` builds from the retained features' new property sets: every used key / value once
+    (no duplicates, no unused entries – whatever the input tables looked like), in the
+    (frequency, value) order; re-encoding the features appends nothing. -/
+theorem rebuilt_tables (f : Props → Option Props) (l l' : Layer) (h : filterMapProps fromIter f l = .ok l') :
+    ∃ fps, fmpDecode l.keys l.vals f l.features = .ok fps ∧
+      l'.keys = (fromIter (fps.map (·.2))).1 ∧ l'.vals = (fromIter (fps.map (·.2))).2 ∧
+      l'.keys.Nodup ∧ l'.vals.Nodup ∧
+      (∀ k, k ∈ l'.keys ↔ ∃ fp ∈ fps, ∃ v, (k, v) ∈ fp.2) ∧
+      (∀ v, v ∈ l'.vals ↔ ∃ fp ∈ fps, ∃ k, (k, v) ∈ fp.2) := by
+  unfold filterMapProps at h
+  cases hd : fmpDecode l.keys l.vals f l.features with
+  | err => simp [hd] at h
+  | panic => simp [hd] at h
+  | ok fps =>
+    simp only [hd, Outcome.ok.injEq] at h
+    have hk := fromIter_keys (fps.map (·.2))
+    have hv := fromIter_vals (fps.map (·.2))
+    have hmem : ∀ fp ∈ fps, ∀ kv ∈ fp.2, kv.1 ∈ (fromIter (fps.map (·.2))).1 ∧ kv.2 ∈ (fromIter (fps.map (·.2))).2 := by
+      intro fp hfp kv hkv
+      constructor
+      · exact (hk.2 kv.1).mpr ⟨fp.2, List.mem_map_of_mem hfp, kv.2, hkv⟩
+      · exact (hv.2 kv.2).mpr ⟨fp.2, List.mem_map_of_mem hfp, kv.1, hkv⟩
+    obtain ⟨h1, h2⟩ := fmpEncode_no_growth fps _ _ hmem
+    subst h
+    refine ⟨fps, rfl, h1, h2, ?_, ?_, ?_, ?_⟩
+    · simp only; rw [h1]; exact hk.1
+    · simp only; rw [h2]; exact hv.1
+    · intro k
+      simp only; rw [h1, hk.2 k]
+      constructor
+      · rintro ⟨p, hp, v, hkv⟩
+        obtain ⟨fp, hfp, rfl⟩ := List.mem_map.mp hp
+        exact ⟨fp, hfp, v, hkv⟩
+      · rintro ⟨fp, hfp, v, hkv⟩
+        exact ⟨fp.2, List.mem_map_of_mem hfp, v, hkv⟩
+    · intro v
+      simp only; rw [h2, hv.2 v]
+      constructor
+      · rintro ⟨p, hp, k, hkv⟩
+        obtain ⟨fp, hfp, rfl⟩ := List.mem_map.mp hp
+        exact ⟨fp, hfp, k, hkv⟩
+      · rintro ⟨fp, hfp, k, hkv⟩
+        exact ⟨fp.2, List.mem_map_of_mem hfp, k, hkv⟩
+
+/-- `from_iter` lists every key of the given property sets exactly once (and likewise every value) -/
+theorem fromIter_tables (ps : List Props) :
+    (fromIter ps).1.Nodup ∧ (fromIter ps).2.Nodup ∧
+    (∀ k, k ∈ (fromIter ps).1 ↔ ∃ p ∈ ps, ∃ v, (k, v) ∈ p) ∧
+    (∀ v, v ∈ (fromIter ps).2 ↔ ∃ p ∈ ps, ∃ k, (k, v) ∈ p) :=
+  ⟨(fromIter_keys ps).1, (fromIter_vals ps).1, (fromIter_keys ps).2, (fromIter_vals ps).2⟩
+
+-- the (count, value) order: "b" is used twice, "a" and "c" once → a, c, b; values by variant rank then value
+example : fromIter [[([97], .uint 1), ([98], .str [120])], [([98], .str [120]), ([99], .int (-1))]]
+    = ([[97], [99], [98]], [.int (-1), .uint 1, .str [120]]) := by decide
 
 end VtProps.C11
